@@ -31,6 +31,10 @@ type Facts struct {
 	StructValidateTestArg string
 	StructValidatePostArg string
 	StructProcessPostWrap string
+	HTTPMethods           [][2]string // method -> parser
+	HTTPTypes             [][2]string // media type -> parser
+	HTTPDefault           string
+	HTTPCutSep            string
 	CloneCopiesTests      bool
 	CloneCopiesPosts      bool
 	KeyBufGuarded         bool
@@ -489,6 +493,64 @@ func extractFacts(repo string) (*Facts, error) {
 		sel, ok := call.Fun.(*ast.SelectorExpr)
 		return ok && sel.Sel.Name == "AddIssue"
 	}), ",")
+	// F-http: the two switch statements of zhttp.Request
+	zf, err := parseFile(fset, filepath.Join(repo, "zhttp/zhttp.go"))
+	if err != nil {
+		return nil, err
+	}
+	parserOf := func(stmts []ast.Stmt) string {
+		for _, st := range stmts {
+			if rs, ok := st.(*ast.ReturnStmt); ok && len(rs.Results) == 1 {
+				if call, ok := rs.Results[0].(*ast.CallExpr); ok {
+					if sel, ok := call.Fun.(*ast.SelectorExpr); ok {
+						return sel.Sel.Name
+					}
+				}
+			}
+		}
+		return "?"
+	}
+	for _, d := range zf.Decls {
+		fd, ok := d.(*ast.FuncDecl)
+		if !ok || fd.Name.Name != "Request" {
+			continue
+		}
+		ast.Inspect(fd.Body, func(n ast.Node) bool {
+			sw, ok := n.(*ast.SwitchStmt)
+			if !ok {
+				if call, ok := n.(*ast.CallExpr); ok {
+					if sel, ok := call.Fun.(*ast.SelectorExpr); ok && sel.Sel.Name == "Cut" && len(call.Args) == 2 {
+						if bl, ok := call.Args[1].(*ast.BasicLit); ok {
+							fc.HTTPCutSep = strings.Trim(bl.Value, "\"")
+						}
+					}
+				}
+				return true
+			}
+			tag := exprString(sw.Tag)
+			for _, cc := range sw.Body.List {
+				c := cc.(*ast.CaseClause)
+				if c.List == nil {
+					if tag != "r.Method" {
+						fc.HTTPDefault = parserOf(c.Body)
+					}
+					continue
+				}
+				for _, e := range c.List {
+					if bl, ok := e.(*ast.BasicLit); ok {
+						v := strings.Trim(bl.Value, "\"")
+						if tag == "r.Method" {
+							fc.HTTPMethods = append(fc.HTTPMethods, [2]string{v, parserOf(c.Body)})
+						} else {
+							fc.HTTPTypes = append(fc.HTTPTypes, [2]string{v, parserOf(c.Body)})
+						}
+					}
+				}
+			}
+			return true
+		})
+	}
+
 	// F-clone: does cloneShallow give the new object its own tests / postTransforms backing arrays?
 	hf, err := parseFile(fset, filepath.Join(repo, "struct_helpers.go"))
 	if err != nil {
@@ -542,7 +604,7 @@ func leanStrList(xs []string) string {
 
 func (f *Facts) lean() string {
 	var s strings.Builder
-	s.WriteString("-- GENERATED by harness/cmd/extract (go/ast) from /repo's working tree. Do not edit.\nimport Zog.Engine\nnamespace Zog.Gen\nopen Zog\n\n")
+	s.WriteString("-- GENERATED by harness/cmd/extract (go/ast) from /repo's working tree. Do not edit.\nimport Zog.Engine\nimport Zog.Http\nnamespace Zog.Gen\nopen Zog\n\n")
 	for _, l := range []string{"structParse", "structVal", "sliceParse", "sliceVal"} {
 		fmt.Fprintf(&s, "-- %s loop assigns before the child call: %s\n", l, strings.Join(f.LoopAssigns[l], ", "))
 	}
@@ -587,6 +649,31 @@ func (f *Facts) lean() string {
 	}
 	s.WriteString("]\n\n")
 	fmt.Fprintf(&s, "/-- writes rooted at a schema receiver or package variable inside process/validate/Parse/Validate -/\ndef schemaWrites : List String := %s\n\n", leanStrList(f.Writes))
+	srcOf := func(p string) string {
+		switch p {
+		case "Query":
+			return ".query"
+		case "JSON":
+			return ".json"
+		case "Form":
+			return ".form"
+		}
+		return ".query /- unrecognised parser " + p + " -/"
+	}
+	tbl := func(name string, rows [][2]string) {
+		fmt.Fprintf(&s, "def %s : List (List Char × Http.Source) := [", name)
+		for i, r := range rows {
+			if i > 0 {
+				s.WriteString(", ")
+			}
+			fmt.Fprintf(&s, "(%s, %s)", leanChars(r[0]), srcOf(r[1]))
+		}
+		s.WriteString("]\n")
+	}
+	s.WriteString("/-- zhttp.Request: `switch r.Method` and `switch typ` (typ = text of Content-Type before the separator) -/\n")
+	tbl("httpMethods", f.HTTPMethods)
+	tbl("httpTypes", f.HTTPTypes)
+	fmt.Fprintf(&s, "def httpDefault : Http.Source := %s\ndef httpCutSep : List Char := %s\n\n", srcOf(f.HTTPDefault), leanChars(f.HTTPCutSep))
 	fmt.Fprintf(&s, "/-- cloneShallow (Pick/Omit/Extend) gives the derived schema its own tests and postTransforms arrays -/\ndef cloneCopies : Bool := %s\n\n", b(f.CloneCopiesTests && f.CloneCopiesPosts))
 	fmt.Fprintf(&s, "def structValidateTestArg : String := %q\n", f.StructValidateTestArg)
 	fmt.Fprintf(&s, "def structValidatePostArg : String := %q\n", f.StructValidatePostArg)
